@@ -2,8 +2,8 @@ package main
 
 import (
 	"go/token"
-	"strings"
 	"go/types"
+	"strings"
 
 	"golang.org/x/tools/go/ssa"
 )
